@@ -512,6 +512,9 @@ func (a *allowerContext) aliasEventAllowed(event PDU) error {
 	}
 
 	// Check that event is a state event.
+	if event.StateKey() == nil {
+		return errorf("alias event %q is not a state event", event.EventID())
+	}
 	// Check that the state key matches the server sending this event.
 	// https://github.com/matrix-org/synapse/blob/v0.18.5/synapse/api/auth.py#L158
 	switch event.Version() {
